@@ -327,7 +327,13 @@ def ew(st, fn, *ops, sort=None):
     if sort is None:
         sort = "real"
 
+    memo = {}   # cell terms are pure functions of the index: chains of elementwise ops stay linear in size
+
     def base(ix, ops=ops, nd=nd):
+        key = tuple(("z", i.get_id()) if is_sym(i) else i for i in ix)
+        hit = memo.get(key)
+        if hit is not None:
+            return hit[1]
         vals = []
         for o in ops:
             if isinstance(o, Arr):
@@ -336,7 +342,9 @@ def ew(st, fn, *ops, sort=None):
                 vals.append(o.get(sub))
             else:
                 vals.append(o)
-        return fn(*vals)
+        r = fn(*vals)
+        memo[key] = (ix, r)   # ix kept alive: z3 ids are not recycled while the entry exists
+        return r
     r = Arr(shape, base, (), sort)
     if all(isinstance(a, CArr) for a in arrs):
         return st.alloc(materialise(r), "arr")
@@ -389,6 +397,7 @@ REG["numpy.pi"] = T.PI
 REG["math.pi"] = T.PI
 REG["numpy.inf"] = T.INF
 REG["math.inf"] = T.INF
+REG["numpy.nan"] = Opaque("nan")     # not a real number: usable as a returned marker only (arithmetic on it is unsupported)
 REG["numpy.newaxis"] = None
 REG["numpy.nan"] = "nan"
 for _t in ("ndarray", "float64", "int64", "float32", "int32", "bool_", "datetime64", "timedelta64", "complex64", "complex128"):
@@ -709,6 +718,37 @@ def np_diff(interp, st, args, kwargs):
     return st.alloc(materialise(r) if isinstance(a, CArr) else r, "arr")
 
 
+@reg("numpy.linalg.norm")
+def np_linalg_norm(interp, st, args, kwargs):
+    """2-norm of a 1-d array (no ord / axis): sqrt of the sum of squares"""
+    a = _val(st, args[0])
+    if len(args) > 1 or kwargs or not isinstance(a, Arr) or a.ndim != 1:
+        raise Unsupported("np.linalg.norm: only the 2-norm of a 1-d array is modelled")
+    sq = st.deref(ew(st, lambda v: T.mul(v, v), a))
+    return T.uf("sqrt", reduce_sum(st, sq, None))
+
+
+@reg("numpy.linalg.lstsq")
+def np_linalg_lstsq(interp, st, args, kwargs):
+    """least squares: only the shape of the solution is modelled (cells unspecified, finite reals)"""
+    a = _val(st, args[0])
+    b = _val(st, args[1])
+    if not isinstance(a, Arr) or a.ndim != 2 or not isinstance(b, Arr) or b.ndim != 1:
+        raise Unsupported("np.linalg.lstsq: only matrix / vector")
+    return (_alloc_uninit(st, (a.shape[1],), "lstsq_x"), Opaque("lstsq.residuals"), Opaque("lstsq.rank"), Opaque("lstsq.sv"))
+
+
+@reg("numpy.roll")
+def np_roll(interp, st, args, kwargs):
+    a = _val(st, args[0])
+    shift = st.deref(args[1]) if len(args) > 1 else st.deref(kwargs["shift"])
+    if not isinstance(a, Arr) or a.ndim != 1 or len(args) > 2 or "axis" in kwargs:
+        raise Unsupported("np.roll: only 1-d arrays")
+    n = a.shape[0]
+    r = Arr((n,), lambda ix, a=a, n=n, shift=shift: a.get((T.mod(T.sub(ix[0], shift), n),)), (), a.sort)
+    return st.alloc(materialise(r) if isinstance(a, CArr) else r, "arr")
+
+
 @reg("numpy.errstate")
 def np_errstate(interp, st, args, kwargs):
     return Opaque("errstate")
@@ -832,6 +872,8 @@ def b_str(interp, st, args, kwargs):
 
 @reg("builtins.print", True)
 def b_print(interp, st, args, kwargs):
+    # the only modelled effect: a ghost counter (contracts can tell "a message was printed" paths apart)
+    st.ghost["printed"] = st.ghost.get("printed", 0) + 1
     return None
 
 
